@@ -33,14 +33,15 @@ def maxP1 : Nat := 2147483648
 def i64Lim : Nat := 9223372036854775808
 
 /-- One iteration of the `next_token` loop on raw token `r` with buffer `p`
-(`lexer.rs:717-729` calling `process_raw_token`, `lexer.rs:733-767`):
-result = (buffer afterwards, token yielded to the parser if any, "Not a 32-bit integer." reported). -/
+(`lexer.rs:717-729` calling `process_raw_token`, `lexer.rs:733-771`, as of fix commit d5c9a21):
+result = (buffer afterwards, token yielded to the parser if any, "Not a 32-bit integer." reported).
+Before the fix the second test read `v = maxP1 ∧ p = none` (finding C06-F1). -/
 def step (p : Option Tok) (r : Raw) : Option Tok × Option Tok × Bool :=
   match r with
   | .int v =>
     if i64Lim ≤ v then (some (.raw r), p, true)                               -- parse::<i64>() Err
-    else if maxP1 < v ∨ (v = maxP1 ∧ p = none) then (some (.raw r), p, true)  -- lexer.rs:749-750
-    else if v = maxP1 ∧ p = some (.raw .minus) then (some .negMin, none, false) -- merge, :751-760
+    else if maxP1 < v ∨ (v = maxP1 ∧ p ≠ some (.raw .minus)) then (some (.raw r), p, true)
+    else if v = maxP1 ∧ p = some (.raw .minus) then (some .negMin, none, false) -- merge
     else (some (.raw r), p, false)
   | _ => (some (.raw r), p, false)
 
@@ -77,15 +78,5 @@ def expand : List Tok → List Raw
 exactly 2³¹ directly preceded by a `-` token. -/
 def InRange (rs : List Raw) (i : Nat) (v : Nat) : Prop :=
   v < maxP1 ∨ (v = maxP1 ∧ ∃ j, i = j + 1 ∧ rs[j]? = some .minus)
-
-/-- Side condition of the `_partial` theorems: a literal 2³¹ is either the very first token of the
-file or directly preceded by `-`. -/
-def Guarded (rs : List Raw) : Prop :=
-  ∀ i, rs[i]? = some (.int maxP1) → i = 0 ∨ ∃ j, i = j + 1 ∧ rs[j]? = some .minus
-
-def guardedB : Option Raw → List Raw → Bool
-  | _, [] => true
-  | prev, r :: rs =>
-    (if r = .int maxP1 then decide (prev = none ∨ prev = some .minus) else true) && guardedB (some r) rs
 
 end SamVerif.IntRange
